@@ -20,6 +20,7 @@ import Mistletoe.Props.C03_Code
 import Mistletoe.Props.C07_Resolve
 import Mistletoe.Props.C10_Lists
 import Mistletoe.Props.C19_EndToEnd
+import Mistletoe.Props.C06_Html
 import Driver.Ast
 open Lean Mistletoe
 
@@ -133,6 +134,9 @@ def c06Spec (j : Json) : Except String Json := do
   -- the specification with backslash escapes; on texts without backslash it is the plain one (`C06_specs_coincide`)
   let spans := Spec.EmphasisEsc.spansEsc s
   pure (Json.mkObj [("plain", Json.bool (Spec.EmphasisEsc.plainEsc s)), ("stdWs", Json.bool (EmphRefine.stdWs s)),
+    -- the extra hypotheses of `C06_html_is_spec_esc_partial` (one line, no "~~") and the specification's HTML of the text
+    ("htmlOk", Json.bool (InertInline.tildeOk s && !s.contains '\n')),
+    ("html", Driver.str (Spec.EmphasisHtml.specHtmlEscQ false false s)),
     ("spans", Json.arr (spans.map (fun (a, b, c, d, st) => Json.arr #[Driver.nat a, Driver.nat b, Driver.nat c, Driver.nat d, Json.bool st])).toArray)])
 
 /-- op "c12.shape": {"doc": exported token tree} → `Doc.shapeOk`, the conclusion of `C12_parsed_shape`, evaluated on a REAL
